@@ -24,6 +24,7 @@ def run(ctx, R, tier):
     F = ctx.facts('default')
     hygiene(F, R)
     once(F, R)
+    per_frame_ops(F, R)
     order(F, R)
     send(F, R)
     ibs(F, R)
@@ -431,3 +432,35 @@ def ibs(F, R):
                 'the device buffer is chunked by %s, not internal_buffer_size * num_channels' % d, detail={'chunk': d})
         m += 1
     R.floor('B.C02.ibs.slice', m, 9)
+
+
+def per_frame_ops(F, R):
+    """The sum counts every contribution once and applies every gain once: in the mixing functions each innermost per-frame
+    loop (and each closure handed to an iterator consumer) performs at most one `+=` and at most one `*=` on a frame.  A
+    second one adds a child twice or squares a volume."""
+    fns = [MIXER + '::process', TRACK + '::process', MAIN + '::process', SEND + '::process', SEND + '::add_input',
+           '<effect::volume_control::VolumeControl as effect::Effect>::process']
+    n = 0
+    for fn in fns:
+        b = F.body(fn)
+        if not R.check(b is not None, 'B.C02.once', 'anchor:per-frame:' + fn.split('::')[-2], '%s not found' % fn):
+            continue
+        bodies = [b] + list(F.closures_of(fn))
+        for body in bodies:
+            loops = body.loops()
+            regions = []
+            for l in loops:
+                if not any(o['header'] != l['header'] and o['header'] in l['blocks'] for o in loops):
+                    regions.append(('loop@%s' % body.blocks[l['header']].get('line', ''), l['blocks']))
+            if body is not b:
+                regions.append(('closure', set(range(body.n))))
+            for tag, blocks in regions:
+                for op in ('add_assign', 'mul_assign'):
+                    sites = [x for x, t in body.calls() if x in blocks and frame_op(op)(callee_path(t) or '', t)]
+                    if not sites:
+                        continue
+                    n += 1
+                    R.check(len(sites) == 1, 'B.C02.once', 'per-frame:%s:%s' % (fn.split('::')[-2] + '::' + fn.split('::')[-1], op),
+                            '%s applies `%s` to a frame %d times in one per-frame loop: a contribution is added twice / a gain applied twice'
+                            % (fn, '+=' if op == 'add_assign' else '*=', len(sites)), detail={'fn': fn, 'op': op}, where=body.where(sites[0]), nontrivial=False)
+    R.floor('B.C02.once-per-frame', n, 8)
